@@ -346,7 +346,7 @@ def f6(tier):
                 body += aop(o, k)
             cases.append(('MI', body + show_a))
     # records: update, alias, pass to function that mutates, nested read
-    rops = ['seta', 'setb', 'alias', 'call', 'swap', 'calias', 'alias3']
+    rops = ['seta', 'setb', 'alias', 'call', 'swap', 'calias', 'alias3', 'dalias']
 
     def rop(o, k):
         r = V('r')
@@ -360,6 +360,8 @@ def f6(tier):
             return [('expr', ('call', 'mut', [r]))]
         if o == 'calias':       # r2 names r only on some paths (decided at run time)
             return [('if', B('>', ('field', r, 'a'), L(1)), [('assign', 'r2', r)], None), ('setfield', V('r2'), 'b', L(60 + k))]
+        if o == 'dalias':       # a fresh name for r, declared with r as its only value; update through the new name, then through r
+            return [('decl', 'q%d' % k, 'Rec', r), ('setfield', V('q%d' % k), 'b', L(90 + k)), ('setfield', r, 'a', B('+', ('field', V('q%d' % k), 'a'), L(5)))]
         if o == 'alias3':       # r2 is made to name a third record
             return [('assign', 'r2', V('r3')), ('setfield', V('r2'), 'a', L(40 + k))]
         return [('decl', 't%d' % k, 'I', ('field', r, 'a')), ('setfield', r, 'a', ('field', r, 'b')), ('setfield', r, 'b', V('t%d' % k))]
